@@ -66,7 +66,9 @@ TrChainBuilt ==
 (* ---- the target runs (exec / inst: it reports; bank: nothing to report) ------------ *)
 TrCalleeRan ==
     /\ IsEvent("CalleeRan") /\ cst = "built"
-    /\ Chk("BIND", "the_target_got_the_message_the_builder_wrapped", l, E.kind = tx.kind /\ E.mode = tx.mode /\ E.nev = fx.fire.nev)
+    /\ Chk("BIND", "the_target_got_the_message_the_builder_wrapped", l, E.kind = tx.kind)
+    \* (for kind "exec" the wrapped message was built by the target's generated executor helper)
+    /\ Chk("C10", "executor_helper_message_runs_the_targets_method_with_equal_arguments", l, E.mode = tx.mode /\ E.nev = fx.fire.nev)
     /\ SubRun
     /\ fx' = [fx EXCEPT !.callee = E]
 
@@ -92,6 +94,9 @@ CtxOk(m, e, res) ==
     /\ e.ctx.height = fx.init.height /\ e.ctx.contract = fx.init.caller
     /\ e.ctx.events = (IF m.on = "success" THEN ChainEvents(tx.kind, fx.fire.nev) ELSE <<>>)
     /\ e.ctx.msg_responses = (IF m.on = "success" THEN 1 ELSE 0)
+(* inside the transaction a reply method sees (through the target's generated querier helper) what the sub-message left: *)
+(* the target's write if it succeeded, nothing of it if it failed                                                        *)
+SeesTarget(e, res) == tx.kind = "exec" => e.ctx.callee_seen = store.callee + (IF res.result = "ok" THEN 1 ELSE 0)
 SecondOk(m, e, res) ==
     CASE m.on = "success" -> e.second.kind = "none"
       [] m.on = "error"   -> e.second.kind = "error" /\ (tx.kind # "bank" => e.second.cf)     \* the target's error text
@@ -122,6 +127,7 @@ TrChainReplyHandler ==
              THEN LET m == Pr.methods[mi] IN
                   /\ Chk("C07", "context_carries_gas_and_for_success_events_and_message_responses", l, CtxOk(m, E, res))
                   /\ Chk("C07", "second_parameter_is_error_text_or_full_result_as_declared", l, SecondOk(m, E, res))
+                  /\ Chk("C10", "query_helper_inside_a_reply_method_sees_the_state_the_transaction_has_reached", l, SeesTarget(E, res))
                   /\ Chk("C08", "payload_parameters_receive_the_values_given_to_the_builder", l, E.payload = fx.built.pay_vals)
                   /\ (m.on = "success" =>
                         /\ Chk("C09", "handler_runs_only_on_data_it_can_be_given", l,
